@@ -180,7 +180,11 @@ Definition step_spec (o : sop) (choice : N) (a : alog) : alog * result :=
 Record params := mkparams { max_entries : N; data_off : N; max_size : N }.
 Definition entry_sz : N := 32.     (* bytes per slot; four big-endian uint64 *)
 
-Inductive variant := VCurrent | VRepaired.
+(* VCurrent: the zero-fill written with WriteSlice over the whole range (4 bytes too long; /repo before 6bd4b1a).
+   VRepaired: the same with a buffer 4 bytes shorter (6bd4b1a; still the fallback of zeroSlots for a file wrapper
+   without ZeroSlots). VZeroSlots: one plain positioned write of zeros without a prefix, and a failed clear fails the
+   Save (fe68fb6: what the tree implements today). *)
+Inductive variant := VCurrent | VRepaired | VZeroSlots.
 
 Record slotrec := mkslot { s_term_ : N; s_index : N; s_type : N; s_off : N }.
 (* a cell of the data area: the 4-byte length word and the payload bytes written after it *)
@@ -276,7 +280,7 @@ Fixpoint trim_zero (rows : list row) : list row :=
   | [] => []
   end.
 
-Definition fill_len (v : variant) (bytes : N) : N := match v with VCurrent => bytes | VRepaired => bytes - 4 end.
+Definition fill_len (v : variant) (bytes : N) : N := match v with VRepaired => bytes - 4 | _ => bytes end.
 
 (* WriteSlice(lo, .., entrySize*lo, make([]byte, L)) with L = fill_len v (endb - 32*lo): bytes [32lo, 32lo+4) receive the
    big-endian L, bytes [32lo+4, 32lo+4+L) receive zero. *)
@@ -301,6 +305,20 @@ Definition zero_fill (v : variant) (P : params) (endb lo : N) (f : file) : file 
   let rows2 := if data_off P + 4 <=? e then map clob rows1 else rows1 in
   let rows3 := trim_zero rows2 in
   mkfile (f_id f) (N.of_nat (length rows3)) rows3 (f_size f) (if lo =? 0 then None else f_c0 f) false.
+
+(* ZeroSlots(lo, hi): one positioned write of 32*(hi-lo) zero bytes at 32*lo; everything cached for these slots is
+   dropped. Nothing outside the slot records [lo, hi) is touched. *)
+Definition zero_slots (hi lo : N) (f : file) : file :=
+  let g p r := if (lo <=? p) && (p <? hi) then zero_row else r in
+  let rows := trim_zero (map_pos g f) in
+  mkfile (f_id f) (N.of_nat (length rows)) rows (f_size f) (if lo =? 0 then None else f_c0 f) false.
+
+(* clearing the slot records [lo, hi) (= the bytes [32*lo, endb)) the way variant v does it *)
+Definition clear_slots (v : variant) (P : params) (endb hi lo : N) (f : file) : file :=
+  match v with
+  | VZeroSlots => zero_slots hi lo f
+  | _ => zero_fill v P endb lo f
+  end.
 
 (* write the cell and the slot of one entry at position p, offset off *)
 Definition write_row (p off : N) (e : entry) (f : file) : file :=
@@ -341,29 +359,106 @@ Fixpoint append_loop (P : params) (es : list entry) (off : N) (d : disk) : disk 
       append_loop P r (off1 + 4 + p_len (e_data e)) (mkdisk (d_files d1) c (d_next d1 + 1) (d_meta d1))
   end.
 
-(* entryLog.AddEntries *)
+(* entryLog.AddEntries, first part: the conflict handling for a batch whose first index is b *)
+Definition conflict_step (v : variant) (P : params) (b : N) (d : disk) : disk :=
+  match slot_ge P d b with
+  | (_, None) => d
+  | (InCur, Some lo) =>
+      if lo <? d_next d
+      then mkdisk (d_files d) (clear_slots v P (entry_sz * d_next d) (d_next d) lo (d_cur d)) lo (d_meta d)
+      else mkdisk (d_files d) (d_cur d) lo (d_meta d)
+  | (InOld k, Some lo) =>
+      let f := nth k (d_files d) (d_cur d) in
+      mkdisk (firstn k (d_files d)) (clear_slots v P (data_off P) (max_entries P) lo f) lo (d_meta d)
+  end.
+
+(* second part: the offset after the previous entry of the current file, then the loop *)
+Definition after_conflict (P : params) (es : list entry) (d1 : disk) : disk :=
+  let '(off, c) :=
+    if d_next d1 =? 0 then (data_off P, d_cur d1)
+    else let p := d_next d1 - 1 in
+         let '(n, c) := cell_len (d_cur d1) p in
+         (s_off (slot_at (d_cur d1) p) + 4 + n, c) in
+  append_loop P es off (mkdisk (d_files d1) c (d_next d1) (d_meta d1)).
+
 Definition add_entries (v : variant) (P : params) (es : list entry) (d : disk) : disk :=
   match es with
   | [] => d
-  | e0 :: _ =>
-      let d1 :=
-        match slot_ge P d (e_index e0) with
-        | (_, None) => d
-        | (InCur, Some lo) =>
-            if lo <? d_next d
-            then mkdisk (d_files d) (zero_fill v P (entry_sz * d_next d) lo (d_cur d)) lo (d_meta d)
-            else mkdisk (d_files d) (d_cur d) lo (d_meta d)
-        | (InOld k, Some lo) =>
-            let f := nth k (d_files d) (d_cur d) in
-            mkdisk (firstn k (d_files d)) (zero_fill v P (data_off P) lo f) lo (d_meta d)
-        end in
-      (* offset after the previous entry of the current file *)
-      let '(off, c) :=
-        if d_next d1 =? 0 then (data_off P, d_cur d1)
-        else let p := d_next d1 - 1 in
-             let '(n, c) := cell_len (d_cur d1) p in
-             (s_off (slot_at (d_cur d1) p) + 4 + n, c) in
-      append_loop P es off (mkdisk (d_files d1) c (d_next d1) (d_meta d1))
+  | e0 :: _ => after_conflict P es (conflict_step v P (e_index e0) d)
+  end.
+
+(* --- a Save in which one file-system step fails (granularity: the store's own write operations) ---
+   FClear:      the write that clears the slots of the discarded tail fails.
+   FEntry j r:  entry number j of the batch (from 0) does not become visible: its payload or slot write fails (r = true
+                when a rotation that had to precede it was completed), or that rotation itself fails (r = false).
+   FHs / FSnap: all entries are written; the write of the hard state / of the snapshot fails.
+   The result is (error reported to the caller?, state left behind). Today's code (VZeroSlots) reports every one of
+   them; before fe68fb6 the result of the clearing write was dropped: the Save went on over the stale slots and
+   reported success. A fault that does not apply to the Save at hand (nothing to clear, j beyond the batch, nothing to
+   store) is no fault: an ordinary Save. *)
+Inductive fault := FClear | FEntry (j : nat) (rotated : bool) | FHs | FSnap.
+
+Definition store_meta (h : option hardstate) (s : option snapshot) (d : disk) : disk :=
+  mkdisk (d_files d) (d_cur d) (d_next d) (store_snap s (store_hs h (d_meta d))).
+
+(* the state in which the clearing write of VZeroSlots fails: nothing has changed for a conflict in the current file;
+   for a conflict in a rotated file the later files are gone and that file is the current one, up to its first empty slot *)
+Definition clear_failed (P : params) (b : N) (d : disk) : option disk :=
+  match slot_ge P d b with
+  | (InCur, Some lo) => if lo <? d_next d then Some d else None
+  | (InOld k, Some lo) =>
+      let f := nth k (d_files d) (d_cur d) in
+      if lo <? max_entries P
+      then Some (mkdisk (firstn k (d_files d)) f (first_empty_slot P f) (d_meta d))
+      else None
+  | _ => None
+  end.
+
+(* the conflict handling when the clearing write fails and the error is dropped (before fe68fb6): nothing is cleared *)
+Definition conflict_noclear (P : params) (b : N) (d : disk) : disk :=
+  match slot_ge P d b with
+  | (_, None) => d
+  | (InCur, Some lo) => mkdisk (d_files d) (d_cur d) lo (d_meta d)
+  | (InOld k, Some lo) => mkdisk (firstn k (d_files d)) (nth k (d_files d) (d_cur d)) lo (d_meta d)
+  end.
+
+Definition needs_rotate (P : params) (d : disk) (off : N) (e : entry) : bool :=
+  (max_entries P <=? d_next d) || (max_size P <? off + 4 + p_len (e_data e)).
+(* where the next payload of the current file goes *)
+Definition end_off (P : params) (d : disk) : N :=
+  if d_next d =? 0 then data_off P
+  else s_off (slot_at (d_cur d) (d_next d - 1)) + 4 + fst (cell_len (d_cur d) (d_next d - 1)).
+
+Definition save_fail (v : variant) (P : params) (es : list entry) (h : option hardstate) (s : option snapshot)
+           (ft : fault) (d : disk) : bool * disk :=
+  let whole := store_meta h s (add_entries v P es d) in
+  match es, ft with
+  | e0 :: _, FClear =>
+      match clear_failed P (e_index e0) d with
+      | None => (false, whole)
+      | Some d1 =>
+          match v with
+          | VZeroSlots => (true, d1)
+          | _ => (false, store_meta h s (after_conflict P es (conflict_noclear P (e_index e0) d)))
+          end
+      end
+  | e0 :: _, FEntry j rotated =>
+      if Nat.ltb j (length es) then
+        let d1 := after_conflict P (firstn j es) (conflict_step v P (e_index e0) d) in
+        let e := nth j es e0 in
+        (true, if rotated && needs_rotate P d1 (end_off P d1) e then rotate P (end_off P d1) d1 else d1)
+      else (false, whole)
+  | _, FHs =>
+      match h with
+      | Some x => if hs_is_empty x then (false, whole) else (true, add_entries v P es d)
+      | None => (false, whole)
+      end
+  | _, FSnap =>
+      match s with
+      | Some x => if snap_valid x then (true, store_meta h None (add_entries v P es d)) else (false, whole)
+      | None => (false, whole)
+      end
+  | [], _ => (false, whole)
   end.
 
 (* --- reading --- *)
